@@ -6,6 +6,18 @@ NumPy on *basis assignments* of the variables (all zero; one entry one; for bi-a
 product of decision and random basis vectors) and compared with the value of the RSOME result
 computed from its observable fields (linear@v+const; raffine/affine).  Both sides are affine
 (bi-affine) in the variables, so agreement on the basis points decides the function for all values.
+
+Sparse-constant family: a constant operand may come as a scipy.sparse container (csr_matrix, csc_matrix,
+coo_matrix, csr_array) on EITHER side of `+ - * @` (the reflected operators __radd__/__rsub__/__rmul__/
+__rmatmul__ of every expression class as well as the direct ones), for square and non-square shapes,
+against (a) every leaf class x shape, (b) every intermediate result of a first operator (NumPy-feasible
+chains), (c) the bi-affine product (`*` / `@`, either order) of a decision expression with a random one.
+RSOME reads a sparse constant as its dense array (so `S * e` is element-wise although scipy's own `*` of a
+*_matrix is the matrix product); the reference therefore is NumPy applied to S.toarray().  The constants
+have a zero entry and are constant along no row and no column, so "row sum instead of entry", "matrix
+product instead of element-wise" and "stored pattern instead of array" all change a basis value.  Where RSOME raises on the sparse container the
+chain is re-run with the dense array: dense accepted + sparse failing with anything but TypeError (RSOME's own
+refusal of an operand type) is a violation (the container, not the operation, broke it).
 """
 import itertools
 import numpy as np
@@ -17,13 +29,19 @@ FLOOR = 0.3
 RULE = ('every expression tree of depth<=d over {leaf class} x {shape} x {operator with all operand '
         'shapes / index expressions / axes}; a case is non-trivial when NumPy and RSOME both return a '
         'value and the value depends on at least one variable (compared on all basis assignments); '
-        'distinct = distinct canonical tree')
+        'distinct = distinct canonical tree; constants are float / int / unsigned / Python scalars and '
+        'scipy.sparse containers (csr_matrix, csc_matrix, coo_matrix, csr_array) as the left and as the right '
+        'operand of + - * @, judged by NumPy on the dense array')
 ASSUMPTIONS = [
     'affine / bi-affine functions are decided by their values on the basis assignments (linear algebra)',
     'leaf value is defined by the leaf object\'s own to_affine() fields (checked to be the identity slice for plain variables)',
     'where NumPy raises and RSOME returns a value the property is silent: counted as extension, not alarmed',
     'an expression object used as an operand must keep its coefficients (compared densely, zero-column padding allowed)',
-    'RSOME raising where NumPy succeeds is "unsupported" (allowed by the property)',
+    'RSOME raising where NumPy succeeds is "unsupported" (allowed by the property), except: a chain that RSOME '
+    'accepts with the dense array of a sparse constant must not fail with an internal error (anything but '
+    'TypeError, RSOME\'s refusal of an operand type) when given the sparse container - differential, two RSOME runs',
+    'a scipy.sparse constant denotes its dense array S.toarray() for every operator (RSOME densifies sparse '
+    'operands; `*` is element-wise for *_matrix containers too)',
 ]
 TRUSTED = ['CPython', 'NumPy operators as reference', 'scipy.sparse arithmetic used to read Affine.linear']
 
@@ -33,6 +51,8 @@ PAIR_SHAPES = [(), (2,), (3,), (1, 2), (2, 2), (2, 3), (3, 2), (2, 3, 2)]
 RO_KINDS = ['x', 'xs', 'xa', 'z', 'zs', 'za', 'y', 'ys', 'xz']
 DRO_KINDS = ['x', 'xs', 'xa', 'z', 'zs', 'za', 'ya', 'xz']
 RAND_KINDS = ('z', 'zs', 'za')
+# scipy.sparse containers a constant operand may come in ('sp' is the historical name of csr_matrix)
+SPARSE_DT = {'sp': 'csr_matrix', 'spc': 'csc_matrix', 'spo': 'coo_matrix', 'spa': 'csr_array'}
 
 INDEXES = ['0', '-1', '1', '2', '-3', '...', ':', '::-1', '1:', ':-1', '::2', '1::2', '0:0', 'None',
            '[0]', '[1,0]', '[0,0,1]', '[-1]', 'np.array([0,1])', 'np.array([[0,1],[1,0]])',
@@ -97,6 +117,52 @@ def _const_ops(shapes):
     return out
 
 
+SPARSE_SHAPES = [[2, 2], [2, 3], [3, 2], [1, 2], [3, 3]]
+SPARSE_SHAPES_T = SPARSE_SHAPES + [[2, 1], [1, 1], [1, 3]]
+
+
+def _sparse_ops(thorough):
+    """Constants given as scipy.sparse containers: every container x operator x operand order x shape.
+
+    side 'l': expression (op) S;  side 'r': S (op) expression - the reflected operators (__radd__, __rsub__,
+    __rmul__, __rmatmul__) of every expression class.  For the *_matrix containers scipy itself reads `*` as
+    the matrix product, RSOME reads a sparse constant as its dense array (element-wise `*`, like NumPy on
+    S.toarray()); the reference is NumPy on the dense array in every case.
+    """
+    have = set(map(repr, _const_ops([])))
+    out = []
+    for s in (SPARSE_SHAPES_T if thorough else SPARSE_SHAPES):
+        for name in ('mul', 'add', 'sub', 'matmul'):
+            for side in ('r', 'l'):
+                for dt in SPARSE_DT:
+                    op = ['bin', name, side, {'c': s, 'dt': dt}]
+                    if repr(op) not in have:
+                        out.append(op)
+    return out
+
+
+def _sparse_second_q():
+    """Reduced sparse alphabet applied to intermediate results and to products of two expressions (quick)."""
+    out = []
+    for dt in ('sp', 'spa'):
+        for name in ('mul', 'add', 'sub', 'matmul'):
+            for side in ('r', 'l'):
+                out.append(['bin', name, side, {'c': [2, 2], 'dt': dt}])
+        for side in ('r', 'l'):
+            out.append(['bin', 'mul', side, {'c': [2, 3], 'dt': dt}])
+            out.append(['bin', 'mul', side, {'c': [3, 3], 'dt': dt}])
+    for dt in ('spc', 'spo'):
+        for side in ('r', 'l'):
+            out.append(['bin', 'mul', side, {'c': [2, 2], 'dt': dt}])
+    return out
+
+
+# products of two expressions that are then combined with a sparse constant: (kinds, shapes, operator)
+PROD_SHAPES = [((2, 2), (2, 2)), ((2, 3), (2, 3)), ((3,), (2, 3)), ((2, 2), (2, 3)), ((2, 3), (3, 2)), ((2,), (2, 2)),
+               ((), (2, 2)), ((2, 2), ())]
+DEC_KINDS = ('x', 'xs', 'xa')
+
+
 def _nary_ops():
     out = []
     for ax in (0, 1, -1, 2):
@@ -121,10 +187,24 @@ def _nary_ops():
 
 
 def gen_cases(tier, seed):
+    import os
+    if os.environ.get('C05_TMP_ONLY_SPARSE'):      # TEMPORARY
+        base = set()
+        import json
+        os.environ['C05_TMP_ONLY_SPARSE'] = ''
+        for c in _gen_cases(tier, seed):
+            if any(o[0] == 'bin' and o[3].get('dt') in SPARSE_DT for o in c['ops']):
+                yield c
+        return
+    yield from _gen_cases(tier, seed)
+
+
+def _gen_cases(tier, seed):
     thorough = tier == 'thorough'
     shapes = SHAPES_T if thorough else SHAPES
     unary = _unary_ops(thorough)
     consts = _const_ops(shapes)
+    sparse = _sparse_ops(thorough)
     nary = _nary_ops()
     fes = [('ro', RO_KINDS), ('dro', DRO_KINDS)]
     # depth 1: every leaf x every op
@@ -133,7 +213,7 @@ def gen_cases(tier, seed):
             for s in shapes:
                 leaf = {'k': k, 's': list(s)}
                 yield {'fe': fe, 'L': [leaf], 'ops': []}
-                for op in unary + consts:
+                for op in unary + consts + sparse:
                     yield {'fe': fe, 'L': [leaf], 'ops': [op]}
                 for op in nary:
                     l1s = [list(s)] if op[0] != 'vec' else [[]]
@@ -166,6 +246,53 @@ def gen_cases(tier, seed):
                         continue
                     for op2 in second:
                         yield {'fe': fe, 'L': [leaf], 'ops': [op1, op2]}
+    # sparse constants met by an intermediate result (only chains NumPy accepts: the sparse operand is the point)
+    sp_q = _sparse_second_q()
+    sp_all = sparse + [op for op in consts if op[3].get('dt') in SPARSE_DT]
+    # (first alphabet, sparse alphabet): quick = reduced x reduced; thorough adds full x reduced, reduced x full
+    combos = [(SECOND_Q, sp_q)] + ([(first, sp_q), (SECOND_Q, sp_all)] if thorough else [])
+    memo = {}
+
+    def ok(sh, op):          # does NumPy accept `op` on an array of shape sh (memoised: shapes x operators)
+        key = (sh, id(op))
+        if key not in memo:
+            memo[key] = _np_shape(sh, [op])
+        return memo[key]
+    for fe, kinds in fes:
+        for k in kinds:
+            for s in PAIR_SHAPES + [(2, 1)]:
+                leaf = {'k': k, 's': list(s)}
+                for firsts, seconds in combos:
+                    for op1 in firsts:
+                        sh = ok(s, op1)
+                        if sh is None:
+                            continue
+                        for op2 in seconds:
+                            if ok(sh, op2) is not None:
+                                yield {'fe': fe, 'L': [leaf], 'ops': [op1, op2]}
+                if thorough:
+                    for op1 in sp_all:
+                        if ok(s, op1) is None:
+                            continue
+                        for op2 in SECOND_Q:
+                            yield {'fe': fe, 'L': [leaf], 'ops': [op1, op2]}
+    # ... and by the product of a decision expression with a random one (either order, `*` and `@`)
+    for fe, kinds in fes:
+        for k0, k1 in itertools.product(kinds, kinds):
+            if not ((k0 in DEC_KINDS and k1 in RAND_KINDS) or (k0 in RAND_KINDS and k1 in DEC_KINDS)):
+                continue        # other products are not affine (the one-operator pair family judges them)
+            for s0, s1 in PROD_SHAPES:
+                for name in ('mul', 'matmul'):
+                    op1 = ['bin', name, 'l', {'leaf': 1}]
+                    try:
+                        a, b = np.zeros(s0), np.zeros(s1)
+                        sh = (a * b if name == 'mul' else a @ b).shape
+                    except Exception:  # noqa
+                        continue
+                    for op2 in (sp_all if thorough else sp_q):
+                        if ok(sh, op2) is not None:
+                            yield {'fe': fe, 'L': [{'k': k0, 's': list(s0)}, {'k': k1, 's': list(s1)}],
+                                   'ops': [op1, op2]}
     # history: an intermediate object is first used in an ordinary way (indexed / summed / transposed, result
     # discarded - this fills the lazily built index caches) and the chain then continues from the same object
     pres = [['idx', '0'], ['sum', 0]] + ([['idx', '(Ellipsis,-1)'], ['T'], ['sum', None]] if thorough else [])
@@ -223,7 +350,19 @@ def bounds(tier):
     return {'depth': 3 if th else 2, 'shapes': len(SHAPES_T if th else SHAPES), 'index_exprs': len(INDEXES),
             'leaf_classes': len(RO_KINDS) + len(DRO_KINDS),
             'depth2_second_level_alphabet': 'full' if th else len(SECOND_Q),
-            'history': 'one discarded earlier use (index / sum) of the leaf or of the intermediate object'}
+            'history': 'one discarded earlier use (index / sum) of the leaf or of the intermediate object',
+            'sparse_constants': {
+                'containers': sorted(SPARSE_DT.values()), 'operators': ['add', 'sub', 'mul', 'matmul'],
+                'operand_orders': ['expression (op) S', 'S (op) expression'],
+                'shapes': SPARSE_SHAPES_T if th else SPARSE_SHAPES,
+                'depth1': 'every leaf class x shape x sparse operator',
+                'depth2': ('%d first operators then %d sparse operators (NumPy-feasible chains)'
+                           % (len(SECOND_Q), len(_sparse_second_q()))) +
+                          ('; every first operator then these %d; these %d first operators then every sparse operator; '
+                           'every sparse operator then %d second operators'
+                           % (len(_sparse_second_q()), len(SECOND_Q), len(SECOND_Q)) if th else ''),
+                'products': 'decision x random kind pairs (either order) x %d shape pairs x {mul, matmul} then %s'
+                            % (len(PROD_SHAPES), 'every sparse operator' if th else 'the reduced sparse alphabet')}}
 
 
 # ------------------------------------------------------------------------------------------------
@@ -388,8 +527,10 @@ def _const(spec, cur_shape, rs):
         a = a.astype(np.uint8 if dt == 'u8' else np.uint16)
         return a if len(shape) else a[()]        # shape (): a NumPy unsigned scalar
     a = const_val(tuple(shape), 'i' if dt == 'i' else 'f', salt=len(shape))
-    if dt == 'sp' and rs:
-        return _rs['sp'].csr_matrix(a)
+    if dt in SPARSE_DT and rs and not _rs.get('dense_twin'):
+        # the palette has a zero entry in every 2-D shape used, so the stored pattern is not the full one;
+        # the reference side keeps the dense ndarray (RSOME documents sparse constants as their dense array)
+        return getattr(_rs['sp'], SPARSE_DT[dt])(a)
     return a
 
 
@@ -569,6 +710,13 @@ def run_case(case):
     if np_err is not None and rs_err is not None:
         return {'status': 'pass', 'outcome': 'both_raise', 'ops': nops, 'nontrivial': False}
     if rs_err is not None:
+        # A sparse constant denotes its dense array.  If RSOME accepts the chain with the dense array and the
+        # sparse container makes it fail with anything but a TypeError (its way of refusing an operand type:
+        # 'Expression not supported.'), the operation is one RSOME supports and the container broke it.
+        if _has_sparse(case) and not rs_err.startswith('TypeError') and _dense_twin_ok(case):
+            return {'status': 'violation', 'ops': nops,
+                    'sig': tag + '|sparse operand raises %s (its dense array is accepted)' % rs_err.split(':')[0],
+                    'detail': rs_err}
         return {'status': 'unsupported', 'outcome': 'unsupported:' + rs_err.split(':')[0], 'ops': nops,
                 'detail': rs_err}
     if not (is_rs(e) or isinstance(e, (np.ndarray, float, int, np.number))):
@@ -603,6 +751,31 @@ def run_case(case):
                 dep = True
     return {'status': 'pass', 'outcome': 'equal', 'ops': nops, 'nontrivial': bool(dep and r0.size > 0),
             'validated': 1}
+
+
+def _has_sparse(case):
+    return any(op[0] == 'bin' and op[3].get('dt') in SPARSE_DT for op in case['ops'])
+
+
+def _dense_twin_ok(case):
+    """Second RSOME run of the same chain (fresh model) with every sparse constant replaced by its dense array."""
+    _rs['dense_twin'] = True
+    try:
+        env = Env(case['fe'], case['L'])
+        e = env.leaves[0]
+        pre = case.get('pre')
+        for k, op in enumerate(case['ops']):
+            if pre and pre[0] == k:
+                try:
+                    apply_op(pre[1], e, env, None, True)
+                except Exception:  # noqa
+                    pass
+            e = apply_op(op, e, env, None, True)
+        return True
+    except Exception:  # noqa
+        return False
+    finally:
+        _rs['dense_twin'] = False
 
 
 def _is_bilinear_same(case):
